@@ -109,7 +109,7 @@ fn int_points() -> Vec<i128> {
 }
 
 /// interesting doubles (as f64 values; the f32 list is derived by rounding and by neighbours)
-fn f64_points() -> Vec<f64> {
+fn f64_points(bounds_of: &[T]) -> Vec<f64> {
     let mut v: Vec<f64> = vec![0.0, -0.0, 0.5, -0.5, 0.49999999999999994, -0.49999999999999994, 1.5, -1.5, 2.5, -2.5,
         -1.6, 1.6, 1.4, -1.4, 1e30, -1e30, 1e300, -1e300, f64::NAN, f64::INFINITY, f64::NEG_INFINITY,
         f64::MIN_POSITIVE, -f64::MIN_POSITIVE, f64::from_bits(1), f64::from_bits(0x8000_0000_0000_0001),
@@ -117,7 +117,7 @@ fn f64_points() -> Vec<f64> {
         (f32::MAX as f64) * 1.0000001, 3.4028235677973366e38 /* rounds to f32 inf: MAX + half ulp */,
         3.4028235677973362e38, f32::MIN_POSITIVE as f64, 1e-46, 7e-46,
         4503599627370495.5, 4503599627370496.5, 9007199254740991.0, 9007199254740992.0, 9007199254740993.0];
-    for t in INTS {
+    for t in bounds_of {
         let (lo, hi) = t.range();
         for b in [lo as f64, hi as f64, (hi + 1) as f64] {
             for d in [-1.5, -1.0, -0.5, -0.25, 0.0, 0.25, 0.5, 1.0, 1.5] { v.push(b + d); }
@@ -129,11 +129,11 @@ fn f64_points() -> Vec<f64> {
     v.push(f64::from_bits(0xfff8_0000_0000_1234)); // negative NaN with payload
     v
 }
-fn f32_points() -> Vec<f32> {
+fn f32_points(bounds_of: &[T]) -> Vec<f32> {
     let mut v: Vec<f32> = vec![f32::from_bits(1), f32::from_bits(0x8000_0001), f32::from_bits(0x007f_ffff), f32::MIN_POSITIVE,
         f32::MAX, f32::MIN, f32::from_bits(0x7f80_0001), f32::from_bits(0xffc0_0123), 0.49999997, -0.49999997,
         8388607.5, 8388608.5, -8388607.5, 16777216.0, 16777218.0];
-    for d in f64_points() {
+    for d in f64_points(bounds_of) {
         let f = d as f32;
         v.push(f);
         let b = f.to_bits();
@@ -142,13 +142,25 @@ fn f32_points() -> Vec<f32> {
     v
 }
 
-fn src_points(src: T) -> Vec<i128> {
+/// boundary payloads of `src`; in the quick tier a float source gets the bounds of the target type only
+/// (all integer types' bounds in the thorough tier), an integer source the points near the bounds of
+/// source and target and the float-precision ties
+fn src_points(src: T, tgt: T, tier: &str) -> Vec<i128> {
     let (lo, hi) = src.range();
+    let one = [tgt];
+    let bounds_of: &[T] = if tier == "thorough" { &INTS } else if tgt.is_int() { &one } else { &[] };
     let mut v: Vec<i128> = match src {
-        Float => f32_points().iter().map(|f| f.to_bits() as i128).collect(),
-        Double => f64_points().iter().map(|f| f.to_bits() as i128).collect(),
+        Float => f32_points(bounds_of).iter().map(|f| f.to_bits() as i128).collect(),
+        Double => f64_points(bounds_of).iter().map(|f| f.to_bits() as i128).collect(),
         StatusCode => vec![0, 0x8000_0000, 0x8001_0000, 0x80ab_0000, 0x4000_0000, 0x40bc_0000, 0x8073_0000, 0xffff_ffff, 0x0000_ffff],
-        _ => int_points().into_iter().filter(|p| *p >= lo && *p <= hi).collect(),
+        _ => {
+            let (tlo, thi) = if tgt.is_int() { tgt.range() } else { (lo, hi) };
+            let near = |p: i128, b: i128| (p - b).abs() <= 2;
+            int_points().into_iter().filter(|p| *p >= lo && *p <= hi)
+                .filter(|p| tier == "thorough" || !tgt.is_int() || p.abs() <= 3 || near(*p, lo) || near(*p, hi) || near(*p, tlo) || near(*p, thi)
+                            || [23, 80, 100, -100].contains(p))
+                .collect()
+        }
     };
     v.retain(|p| *p >= lo && *p <= hi);
     let mut v: Vec<i128> = v.into_iter().map(|p| actual(src, p)).collect();
@@ -225,19 +237,19 @@ impl Property for P {
         // every pair, both operations, on the boundary values of the source type
         for cast in [false, true] {
             for src in SRC {
-                let pts = src_points(src);
                 for tgt in TGT {
+                    let pts = src_points(src, tgt, tier);
                     for ch in pts.chunks(64) { v.push(Case { cast, src, tgt, lo: 0, n: 0, extra: ch.to_vec() }); }
                 }
             }
         }
-        // exhaustive: all 8-bit sources (one batch per pair and operation)
-        for cast in [false, true] {
-            for src in [SByte, Byte] {
-                for tgt in TGT { v.push(range(cast, src, tgt, src.range().0, 256)); }
-            }
-        }
         if tier == "thorough" {
+            // exhaustive: all 8-bit sources (one range per pair and operation)
+            for cast in [false, true] {
+                for src in [SByte, Byte] {
+                    for tgt in TGT { v.push(range(cast, src, tgt, src.range().0, 256)); }
+                }
+            }
             // exhaustive: all 16-bit sources, in batches of 256 consecutive values
             for cast in [false, true] {
                 for src in [Int16, UInt16] {
@@ -257,6 +269,10 @@ impl Property for P {
         if (src == Int16 || src == UInt16) && r.chance(1, 3) {
             // a shard of the exhaustive 16-bit enumeration
             return range(cast, src, tgt, src.range().0 + 64 * r.below(1024) as i128, 64);
+        }
+        if (src == SByte || src == Byte) && r.chance(1, 2) {
+            // a shard of the exhaustive 8-bit enumeration
+            return range(cast, src, tgt, src.range().0 + 64 * r.below(4) as i128, 64);
         }
         if r.chance(1, 2) {
             // several independent payloads for the same pair
